@@ -709,7 +709,34 @@ def r02_19(run, model):
     _c01.r01_9(run, model, only_fns=(r"::go::",), rid="R02.19", floor=18)
 
 
+def r02_22(run, model):
+    """G-NEST: a statement walker of the Go back end that passes the forms it does not care about through a catch-all still descends into
+    every statement form that carries nested statements"""
+    from lib import passes as P
+    run.rule("R02.22", "every recursive walker over goast::Stmt that has a catch-all arm names each statement form that carries a block "
+                       "(computed from the enum: a field whose type mentions Block) in an unguarded arm of its own - a nested `switch x := x.(type)` "
+                       "inside a form left to the catch-all is not rewritten / not seen (walkers without a catch-all are total by rustc)")
+    trs = P.discover(model, files_prefix="crates/compiler/src/go", min_cover=2, enums={"Stmt"}, include_pprint=False)
+    n = 0
+    for t in trs:
+        if "goast" not in "::".join(t.enum["mod"]) or not t.catch or not P.self_recursive(t.fn):
+            continue
+        n += 1
+        blockv = [v["name"] for v in t.enum["variants"] if any("Block" in f["ty"] for f in v["fields"])]
+        for v in blockv:
+            arms = t.covered.get(v, [])
+            ok = any(arm.get("guard") is None for arm, _alt in arms)
+            run.ob("R02.22", f"{t.fn.qual}|Stmt::{v} has an arm of its own", ok, site(t.fn.file, t.match["sp"]),
+                   "explicit unguarded arm" if ok else ("only guarded arms" if arms else "left to the catch-all: the blocks it carries are not walked"),
+                   witness="match q { Circle(r) => { while go { match q { Circle(_) => .., Dot => .. } } } }: the inner type switch on the rebound "
+                           "`q` (a struct inside `case Circle:`) survives inside the `for` - Go: q (variable of struct type) is not an interface")
+    run.floor("goast::Stmt walkers with a catch-all", n, 2)
+
+
 def run(run, model):
+    # liveness / effect walkers of the Go dead-code pass visit a sub-term whatever its shape (shared with C01 R01.14)
+    from rules import c01 as _c01w
+    run.try_rule(_c01w.r01_14, model, "R02.23", r"/go/dce\.rs$")
     run.try_rule(r02_1, model)
     run.try_rule(r02_2, model)
     run.try_rule(r02_3, model)
@@ -734,6 +761,7 @@ def run(run, model):
     run.try_rule(r02_19, model)
     run.try_rule(r02_20, model)
     run.try_rule(r02_21, model)
+    run.try_rule(r02_22, model)
     # a declaration and the variables bound to its calls agree on the converted result type (shared with C08 R08.19)
     from rules import c08 as _c08b
     run.try_rule(_c08b.r08_19, model)
